@@ -361,15 +361,33 @@ func genInjectionProfile(t *rapid.T) string {
 	return sb.String()
 }
 
+// evaluation-time failures: the profile compiles, the engine fails while evaluating (conflicting outputs of a
+// function or of a complete rule, duplicate keys of an object comprehension). Every such call must still return an
+// error - and so must the calls made after any number of them in the same process.
+var evalErrorExtensions = []string{
+	"conflicting(x) = 1 { true }\nconflicting(x) = 2 { true }\nviolation[m] { m := conflicting(1) }\n",
+	"report[\"profile\"] = \"another name\"\n",
+	"by_key = {k: v | some i; pair := [[\"a\", 1], [\"a\", 2]][i]; k := pair[0]; v := pair[1]}\nviolation[m] { m := by_key }\n",
+	"pick = 1 { true }\npick = 2 { true }\nwarning[m] { m := pick }\n",
+}
+
+func genEvalErrorProfile(t *rapid.T) string {
+	return "profile: failing evaluation\nprefixes:\n  ex: http://ex.org/v#\nviolation:\n- v\nwarning:\n- w\nvalidations:\n  v:\n    targetClass: ex.Test\n    propertyConstraints:\n      ex.p0:\n        minCount: 1\n" +
+		"  w:\n    targetClass: ex.Test\n    propertyConstraints:\n      ex.p1:\n        maxCount: 5\nrego_extensions: |\n  " + strings.ReplaceAll(pick(t, evalErrorExtensions, "evalError"), "\n", "\n  ") + "\n"
+}
+
 func genC17(t *rapid.T) c17Case {
 	loadFixtures()
 	c := c17Case{Entry: pick(t, c17Entries, "entry"), Debug: rapid.IntRange(0, 3).Draw(t, "debug") == 0}
 	// profile (half of the cases keep the profile valid so that mutated data reaches indexing and evaluation)
-	pk := rapid.IntRange(0, 10).Draw(t, "pkind")
+	pk := rapid.IntRange(0, 11).Draw(t, "pkind")
 	if rapid.Bool().Draw(t, "keepProfile") {
 		pk = 3
 	}
 	switch pk {
+	case 11:
+		c.Profile = genEvalErrorProfile(t)
+		c.Ops = append(c.Ops, "p:evaluation-fails")
 	case 10:
 		c.Profile = genInjectionProfile(t)
 		c.Ops = append(c.Ops, "p:injected-result-entry")
@@ -397,7 +415,11 @@ func genC17(t *rapid.T) c17Case {
 	if len(fixLexical) > 0 && rapid.Bool().Draw(t, "lexicalSeed") {
 		seeds = fixLexical
 	}
-	switch rapid.IntRange(0, 9).Draw(t, "dkind") {
+	dk := rapid.IntRange(0, 9).Draw(t, "dkind")
+	if pk == 11 && dk != 0 {
+		dk = 3 // an evaluation can only fail on data that reaches it
+	}
+	switch dk {
 	case 0:
 		c.Data = pick(t, rawData, "rawData")
 		c.Ops = append(c.Ops, "d:raw")
@@ -425,7 +447,7 @@ func genC17(t *rapid.T) c17Case {
 func decideC17(c c17Case) ev.Verdict {
 	v, ok := returnsInTime("C17", func() ev.Verdict { return decideC17Calls(c) })
 	if !ok {
-		ev.Abort("C17", "TestC17", c, ev.Violation("c17-no-return@"+c.Entry, "%s has not returned after %d s (a trivial control call returns at once)\nprofile (%d bytes):\n%s\ndata (%d bytes):\n%s",
+		ev.Abort("C17", "TestC17", c, ev.Violation("c17-no-return@"+c.Entry, "%s has not returned after %d s (a control computation outside the library completes at once)\nprofile (%d bytes):\n%s\ndata (%d bytes):\n%s",
 			c.Entry, noReturnSecs(), len(c.Profile), trunc(c.Profile, 1500), len(c.Data), trunc(c.Data, 600)))
 	}
 	return v
@@ -472,6 +494,9 @@ func decideC17Calls(c c17Case) ev.Verdict {
 		return ev.Violation("c17-both-or-neither", "%s returned report(len %d) and err=%v", c.Entry, len(res.Report), res.Err)
 	}
 	lab := "outcome:error"
+	if res.Err != nil && strings.Contains(res.Err.Error(), "eval_") {
+		lab = "outcome:evaluation-error"
+	}
 	if res.Err == nil {
 		lab = "outcome:report"
 		var v any
